@@ -5,6 +5,7 @@ package main
 import (
 	"fmt"
 	"go/ast"
+	"go/token"
 	"go/types"
 	"os"
 	"regexp"
@@ -637,10 +638,81 @@ func validateCasesIn(m *Model, fn *ssa.Function, out map[string]bool) {
 							out[n.Obj().Name()] = true
 						}
 					}
+					// the arm only picks the row to fill (`row = &T{}`): the case counts when that value
+					// flows on — through the merge point, an interface, a helper — into a Validate() call
+					if v, isV := in2.(ssa.Value); isV && !out[n.Obj().Name()] {
+						if vt := namedOf(v.Type()); vt != nil && vt.Obj().Name() == n.Obj().Name() && vt.Obj() != n.Obj() {
+							if flowsIntoValidate(v, map[ssa.Value]bool{}, 0) {
+								out[n.Obj().Name()] = true
+							}
+						}
+					}
 				}
 			}
 		}
 	}
+}
+
+// flowsIntoValidate: v (a state row) reaches, through φs, interface conversions, local variables and the
+// parameters of hand-written helpers, a call of its Validate() method.
+func flowsIntoValidate(v ssa.Value, seen map[ssa.Value]bool, depth int) bool {
+	if v == nil || seen[v] || depth > 12 || v.Referrers() == nil {
+		return false
+	}
+	seen[v] = true
+	for _, r := range *v.Referrers() {
+		switch y := r.(type) {
+		case *ssa.Phi:
+			if flowsIntoValidate(y, seen, depth+1) {
+				return true
+			}
+		case *ssa.MakeInterface:
+			if flowsIntoValidate(y, seen, depth+1) {
+				return true
+			}
+		case *ssa.ChangeInterface:
+			if flowsIntoValidate(y, seen, depth+1) {
+				return true
+			}
+		case *ssa.ChangeType:
+			if flowsIntoValidate(y, seen, depth+1) {
+				return true
+			}
+		case *ssa.Store:
+			if y.Val == v {
+				if al, isA := y.Addr.(*ssa.Alloc); isA {
+					for _, r2 := range *al.Referrers() {
+						if ld, isL := r2.(*ssa.UnOp); isL && ld.Op == token.MUL && flowsIntoValidate(ld, seen, depth+1) {
+							return true
+						}
+					}
+				}
+			}
+		case *ssa.Call:
+			if y.Call.IsInvoke() {
+				if y.Call.Value == v && y.Call.Method.Name() == "Validate" {
+					return true
+				}
+				continue
+			}
+			sc := y.Call.StaticCallee()
+			if sc == nil {
+				continue
+			}
+			for i, a := range y.Call.Args {
+				if a != v {
+					continue
+				}
+				if sc.Name() == "Validate" && i == 0 {
+					return true
+				}
+				if isRepoPkgPath(fnPkgPath(sc)) && i < len(sc.Params) && len(sc.Blocks) > 0 && flowsIntoValidate(sc.Params[i], seen, depth+4) {
+					return true
+				}
+			}
+		}
+	}
+	return false
 }
 
 func knownFalse(st *State, f string) bool {
